@@ -181,12 +181,12 @@ CHECKS['C01'] = dict(
     title='Generated basis functions are exactly the Cox-de Boor B-splines of the knots',
     level='exploration',
     technique='bounded-exhaustive enumeration of knot vectors (every multiplicity composition x gap pattern x offset) and orders on the real generator with an exact rational scalar; exact comparison with an independent Cox-de Boor recursion in the global monomial basis plus recursion-independent oracles (support, partition of unity, one-sided derivatives)',
-    level_text='Every non-decreasing knot vector up to length 7 (thorough 9): all 2^(m-1) multiplicity compositions (simple knots, interior/left/right repeats, multiplicity beyond p+1, all-equal vectors, m = p+1, m <= p), all gap patterns over {1, 1/2} (thorough {1,1/2,3}), offsets {0,-7/2,100}, orders 0..4 (0..6), through three construction routes. Count = m-p-1, every function equals the reference B-spline on every interval, vanishes outside [t_i,t_{i+p+1}], the functions sum to 1 inside [t_p,t_{m-p-1}] and are C^{p-mu} at every knot.',
+    level_text='Every non-decreasing knot vector up to length 7 (thorough 9): all 2^(m-1) multiplicity compositions (simple knots, interior/left/right repeats, multiplicity beyond p+1, all-equal vectors, m = p+1, m <= p), all gap patterns over {1, 1/2} (thorough {1,1/2,3}), offsets {0,-7/2,100}, orders 0..4 (0..6), through three construction routes. Count = m-p-1, every function equals the reference B-spline on every interval, vanishes outside [t_i,t_{i+p+1}], the functions sum to 1 inside [t_p,t_{m-p-1}] and are C^{p-mu} at every knot. Floating route (float, double, long double): every non-decreasing sequence of up to 4 dyadic widths from 2^-60 to 2^10 starting at 0 (strongly graded but well conditioned), simple knots or one double knot, orders 0..3: every coefficient within 2^-20 (float 2^-10) of the exact one relative to width^-degree.',
     level_note='Trusted: GMP; the 20-line reference recursion in engine/refpp.h (self-checked; two further oracles do not use it). Knot values outside the spacing alphabet enter rationally and are covered by A-shape only.',
     units=std_units('checks/c01_generator.cpp'),
     rule='cases = (knot vector, order). Non-trivial = generation succeeds with at least one function.',
     bounds=dict(quick='knot vectors of length <= 7, gaps {1,1/2}, 3 offsets, orders 0..4', thorough='length <= 9, gaps {1,1/2,3}, orders 0..6'),
-    guards=dict(classes=['refused:too-few-knots', 'refused:one-distinct-value', 'valid:zero-functions', 'valid:functions', 'valid:functions:interior-repeat', 'valid:functions:left-repeat',
+    guards=dict(classes=['float:double', 'float:float', 'float:long double', 'refused:too-few-knots', 'refused:one-distinct-value', 'valid:zero-functions', 'valid:functions', 'valid:functions:interior-repeat', 'valid:functions:left-repeat',
                          'valid:functions:right-repeat', 'valid:functions:interior-repeat:mult>p+1', 'valid:functions:interior-repeat:left-repeat:right-repeat'],
                 counters=['unity_intervals', 'continuity_conditions']),
     assumptions=[A_SHAPE],
@@ -213,7 +213,7 @@ def c05_units(tier, bmode='exact', owner='C05', plan=None):
     from driver import VERIF, BUILD
     gdir = os.path.join(BUILD, owner, 'gen')
     if plan is None:
-        plan = [('k1', 12), ('fixed', 2)] if tier == 'quick' else [('k1', 12), ('fixed', 2), ('k2', 160), ('red3', 320)]
+        plan = [('k1', 12), ('fixed', 2)] if tier == 'quick' else [('k1', 12), ('fixed', 2), ('k2', 208), ('red3', 352)]
     us = []
     for mode, ntus in plan:
         subprocess.run(['python3', os.path.join(VERIF, 'gen', 'gen_exprs.py'), gdir, mode, str(ntus)], check=True, stdout=subprocess.DEVNULL)
@@ -225,13 +225,14 @@ def c05_units(tier, bmode='exact', owner='C05', plan=None):
 CHECKS['C05'] = dict(
     title='Operator expressions act as the differential expression they spell',
     level='exploration',
+    deadline=dict(quick=600, thorough=4500),
     engine='E2 program enumerator x E1 input enumerator',
     technique='exhaustive enumeration of programs: every operator-expression tree up to a node bound over a fixed grammar is generated as C++ (a distinct template instantiation each) together with its reference AST, applied by the real library to every operand/factor placement and compared exactly with a reference interpreter of the AST',
-    level_text='All 204 expression trees with at most one operator node over {I, X<1>, X<2>, Dx<1>, Dx<2>, spline factor} x {unary minus, c*A, A*c, A/c, A+c, c+A, A-c, c-A with c of the scalar type and of type int} x {A*B, A+B, A-B} (thorough: all 10302 trees with at most two nodes and all 31995 three-node trees of a reduced grammar), plus the commutator, the four example Hamiltonians and deeper nests; each applied to splines of order 0..2 on every window of a 5-point grid with unit/zero/generic coefficients and, for trees with a spline factor, 7 factor placements (ending inside, starting inside, point-like, empty, ...) x 2 factor values. The result must denote exactly ref_apply(AST, operand).',
+    level_text='All 246 expression trees with at most one operator node over {I, X<1>, X<2>, Dx<1>, Dx<2>, spline factor} x {unary minus, c*A, A*c, A/c, A+c, c+A, A-c, c-A with c of the scalar type, of type int and of type size_t} x {A*B, A+B, A-B} (thorough: all 14166 trees with at most two nodes and all 36912 three-node trees of a reduced grammar), plus the commutator, the four example Hamiltonians and deeper nests; each applied to splines of order 0..2 on every window of a 5-point grid with unit/zero/generic coefficients and, for trees with a spline factor, 7 factor placements (ending inside, starting inside, point-like, empty, ...) x 2 factor values. The result must denote exactly ref_apply(AST, operand).',
     level_note='Trusted: GMP, the recursive interpreter ref_apply in engine/refpp.h, gen/gen_exprs.py emitting C++ and AST from one object. Trees larger than the bound are not instantiated; operator classes are compositional (a node sees only its children\'s output arrays), so two-node nesting exercises every parent/child pair of node kinds. Expressions are built from temporaries (named lvalue operators do not compile in compound expressions).',
     units=c05_units,
     rule='cases = (expression tree, factor window and value, operand order, operand window, coefficient pattern). Non-trivial = the reference result is a non-zero function. counters.trees = number of distinct expression trees compiled and run.',
-    bounds=dict(quick='204 trees (<= 1 operator node) + 10 fixed deeper trees', thorough='10302 trees (<= 2 nodes) + 31995 trees (3 nodes, reduced grammar {X1,Dx1,V; -A, i*A, A/i, A/c, A-c, i-A; * + -}) + fixed list'),
+    bounds=dict(quick='246 trees (<= 1 operator node) + 10 fixed deeper trees', thorough='14166 trees (<= 2 nodes) + 36912 trees (3 nodes, reduced grammar {X1,Dx1,V; -A, i*A, A/i, A/c, A-c, i-A, A-u; * + -}) + fixed list'),
     guards=dict(classes=['tree:with-factor', 'tree:no-factor', 'factor:interval:ends-inside:starts-inside', 'factor:interval:ends-inside', 'factor:interval:starts-inside', 'factor:point:ends-inside:starts-inside', 'factor:empty:ends-inside', 'factor:interval'],
                 counters=['trees']),
     assumptions=[A_SHAPE, A_POLY],
@@ -455,11 +456,15 @@ def c18_units(tier):
             dict(path='sched/c18_harness.cpp', flags=['-fsanitize=thread'])]
     u = unit('explore', srcs, 'raw', flags=['-O1'])
     u['ldflags'] = ['-O1']
-    return [u]
+    # secondary detector: same bodies, real ThreadSanitizer runtime, free-running
+    f = unit('tsan-free', ['sched/tsan_free.cpp', 'sched/c18_harness.cpp'], 'raw', shards=4, flags=['-O1', '-g', '-fsanitize=thread'])
+    return [u, f]
 
 
 def c18_guard(tier, classes, counters):
     g = []
+    if counters.get('tsan_free_runs', 0) <= 0:
+        g.append('the free-running ThreadSanitizer pass did not run')
     if counters.get('distinct_sync_orders', 0) <= counters.get('programs', 0):
         g.append('no program showed more than one synchronisation order: nothing collided')
     if counters.get('guard_ops', 0) <= 0:
@@ -474,12 +479,12 @@ CHECKS['C18'] = dict(
     level='model_checking',
     engine='E4 schedule explorer',
     technique='stateless model checking of the implementation: real pthreads serialised by a cooperative scheduler at every synchronisation point (atomic operation, static-initialisation guard, thread start/exit), iterative preemption bounding 0,1,2 followed by unbounded depth-first search with state caching; happens-before (vector-clock) race detection over every load and store reported by compiler instrumentation (-fsanitize=thread, linked against an own runtime), allocation shadow, and bit-wise comparison of every thread\'s results with a sequential run on every explored schedule',
-    level_text='Programs: all 81 ordered pairs of 9 operations (evaluate; copy+destroy of spline, support and grid; a+b, a*b, a-b, predicates; operator application incl. spline factor; bilinear/linear forms; generateBSplines; isZero with its function-local static; destruction of thread-owned copies sharing the grid; support algebra) on shared const objects, further pairs with a class-type scalar (guarded static initialisation), 3-thread and 2x2-operation programs (thorough: all 165 unordered triples and all 2x2 programs). For each program every schedule with at most 2 preemptions is covered (bounds 0, 1, 2 run to completion); the unbounded state-cached search is then run under an execution cap and completes for the smaller programs (counters say for how many). With synchronisation confined to read-modify-write chains on reference counts, one preemption already places any two code segments of two threads concurrently, so every potential race between segments is examined within the bound. On every execution: no pair of conflicting accesses unordered by happens-before, no use after free / double free, schedule-independent set of live blocks, no deadlock, per-operation result digests identical to the operation run alone.',
-    level_note='The harness TU is the real library code compiled with -fsanitize=thread; libstdc++ header code is instrumented too, libstdc++.so/libc internals are not (operator new/delete, memcpy/memmove/memset and the guard functions are interposed). Scheduler hand-offs are not happens-before edges. Sequentially consistent interleavings only; under _GLIBCXX_TSAN libstdc++ disables its double-word fast path in shared_ptr release, so that path is not covered. 2-3 threads, 1-2 operations each. A free-running pass of the same bodies under the real ThreadSanitizer runtime is a secondary detector (thorough tier).',
+    level_text='Programs: all 100 ordered pairs of 10 operations (evaluate; copy+destroy of spline, support and grid; a+b, a*b, a-b, predicates; operator application incl. spline factor; bilinear/linear forms; generateBSplines; isZero with its function-local static; destruction of thread-owned copies sharing the grid; support algebra; combination with a spline on an equal grid held in a distinct object) on shared const objects, further pairs with a class-type scalar (guarded static initialisation), 3-thread and 2x2-operation programs (thorough: all 165 unordered triples and all 2x2 programs). For each program every schedule with at most 2 preemptions is covered (bounds 0, 1, 2 run to completion); the unbounded state-cached search is then run under an execution cap and completes for the smaller programs (counters say for how many). With synchronisation confined to read-modify-write chains on reference counts, one preemption already places any two code segments of two threads concurrently, so every potential race between segments is examined within the bound. On every execution: no pair of conflicting accesses unordered by happens-before, no use after free / double free, schedule-independent set of live blocks, no deadlock, per-operation result digests identical to the operation run alone.',
+    level_note='The harness TU is the real library code compiled with -fsanitize=thread; libstdc++ header code is instrumented too, libstdc++.so/libc internals are not (operator new/delete, memcpy/memmove/memset and the guard functions are interposed). Scheduler hand-offs are not happens-before edges. Sequentially consistent interleavings only; under _GLIBCXX_TSAN libstdc++ disables its double-word fast path in shared_ptr release, so that path is not covered. 2-3 threads, 1-2 operations each. A free-running pass of the same bodies under the real ThreadSanitizer runtime (unit tsan-free: all operation pairs, both scalar variants, repeated; thorough: all triples) is a secondary detector for code the instrumentation cannot see; it is not the deciding step.',
     units=c18_units,
     deadline=dict(quick=600, thorough=2700),
     rule='each evaluation is one complete (or state-cache-pruned) execution of a program under one schedule in a forked child; distinct_nontrivial = distinct orders in which the threads performed their synchronisation operations, summed over programs. counters: programs, executions, states, transitions, atomic/guard/plain access counts observed by the runtime.',
-    bounds=dict(quick='120 programs: 81 pairs + 25 class-scalar pairs + 13 triples + 10 2x2 programs; every schedule with <= 2 preemptions; unbounded search granted 6000 further executions per program',
+    bounds=dict(quick='150 programs: 100 pairs + 25 class-scalar pairs + 15 triples + 10 2x2 programs; every schedule with <= 2 preemptions; unbounded search granted 6000 further executions per program',
                 thorough='all pairs, all 165 triples, all 2x2-operation programs; every schedule with <= 2 preemptions; unbounded search granted 100000 further executions per program'),
     guards=dict(func=c18_guard, counters=['programs', 'executions', 'states', 'transitions'], classes=['threads:2:ops:1:variant0', 'threads:3:ops:1:variant0', 'threads:2:ops:2:variant0', 'threads:2:ops:1:variant1']),
     mc_note='states = distinct abstract states at scheduling points (per-thread progress, values observed, vector clocks, contents and clocks of all synchronisation words); transitions = scheduling points executed beyond replayed prefixes; every trace is an execution of the implementation.',
